@@ -31,12 +31,46 @@ def bounds(tier):
 
 
 def cases(tier):
-    return builders.family_specs(tier)
+    out = list(builders.family_specs(tier))
+    out += extra_cases(tier)
+    return out
+
+
+def extra_cases(tier):
+    """Datasets written to netCDF and reopened (lazy arrays, on-disk encodings) and, in the thorough
+    tier, larger and more elongated shapes."""
+    out = []
+    reopened = [
+        {'family': 'cf1d', 'ny': 3, 'nx': 4, 'bounds': 'var', 'lat_kind': 'desc'},
+        {'family': 'cf2d', 'ny': 3, 'nx': 4, 'geometry': 'skew', 'holes': 'interior'},
+        {'family': 'shoc_simple', 'ny': 2, 'nx': 3, 'holes': 'corner'},
+        {'family': 'shoc_standard', 'nj': 3, 'ni': 4, 'dry': 'corner'},
+        {'family': 'ugrid', 'mesh': 'M7', 'supplied': ['edge_node', 'face_edge'], 'start_index': 1, 'fill': 'fillattr'},
+        {'family': 'ugrid', 'mesh': 'M4', 'supplied': ['edge_node'], 'fill': 'nan', 'face_coords': True},
+    ]
+    out += [{**spec, 'io': 'reopen'} for spec in reopened]
+    if tier == 'thorough':
+        for (a, b) in ((5, 5), (2, 6), (6, 2), (1, 7), (7, 1)):
+            out.append({'family': 'cf1d', 'ny': a, 'nx': b, 'bounds': 'var', 'lon_kind': 'desc'})
+            out.append({'family': 'cf2d', 'ny': a, 'nx': b, 'geometry': 'skew', 'holes': 'lshape' if a * b > 3 else 'none'})
+            out.append({'family': 'shoc_standard', 'nj': a, 'ni': b, 'geometry': 'skew', 'dry': 'corner'})
+            out.append({'family': 'shoc_simple', 'ny': a, 'nx': b, 'holes': 'first', 'io': 'reopen'})
+    return out
 
 
 def run_case(case):
     rec = Recorder()
-    ds, truth = builders.build(case)
+    ds, truth = builders.build({k: v for k, v in case.items() if k != 'io'})
+    if case.get('io') == 'reopen':
+        import tempfile
+        from .. import env
+        tmp = tempfile.mkdtemp(prefix='emsverif-', dir=env.scratch_root())
+        try:
+            ds = builders.reopen(ds, tmp).load()
+        finally:
+            import shutil
+            shutil.rmtree(tmp, ignore_errors=True)
+        rec.nontrivial('reopened')
     try:
         convention = lib(lambda: ds.ems)
     except LibraryRaised as err:
